@@ -493,6 +493,63 @@ pub fn run_c20_module_case(rec: &mut Recorder, n: u64, seed: &Rng) {
     }
 }
 
-pub fn run_c42_case(rec: &mut Recorder, n: u64, tag: &str, _plines: &[String], _a: &Args) {
-    rec.case(n, tag);
+/// compile a program through the whole real pipeline; returns (code text, partitioned graph JSON) or the error text
+pub fn compile_all(src: &str) -> Result<(String, String), String> {
+    let code = syn::parse_str::<dfir_lang::parse::DfirCode>(src).map_err(|e| format!("parse: {e}"))?;
+    let r = hv_common::catch(std::panic::AssertUnwindSafe(|| dfir_lang::graph::build_dfir_code(code, &quote!(dfir_rs))));
+    match r {
+        Err(p) => Err(format!("panic: {}", classify_panic(&p))),
+        Ok(Err(d)) => Err(format!("diagnostics: {}", d.iter().map(|x| x.message.clone()).collect::<Vec<_>>().join(" | "))),
+        Ok(Ok(out)) => {
+            let json = serde_json::to_string(&out.partitioned_graph).unwrap();
+            let extra = format!("{}\n{}\n{}", out.partitioned_graph.to_mermaid(&Default::default()), out.partitioned_graph.to_dot(&Default::default()), out.diagnostics.iter().map(|x| x.message.clone()).collect::<Vec<_>>().join("|"));
+            Ok((out.code.to_string(), format!("{json}\n{extra}")))
+        }
+    }
+}
+
+pub fn run_c42_case(rec: &mut Recorder, n: u64, tag: &str, plines: &[String], a: &Args, hashes: &mut Vec<String>) {
+    // the partition transcript (model = fixed iteration order, real code = whatever order the hash seeds give)
+    crate::run_partition_case(rec, "c42", n, tag, plines);
+    let src = pgen::program_text(plines);
+    // an `enemyperm` instance: the iterated hash set in two orders
+    let mut r = Rng::new(a.seed ^ 0x42).fork(n);
+    let k = r.range(0, 5) as usize;
+    let mut ws: Vec<u64> = Vec::new();
+    while ws.len() < k {
+        let w = r.range(3, 12);
+        if !ws.contains(&w) {
+            ws.push(w);
+        }
+    }
+    let mut ws2 = ws.clone();
+    for i in (1..ws2.len()).rev() {
+        let j = r.below(i as u64 + 1) as usize;
+        ws2.swap(i, j);
+    }
+    rec.line(&format!("enemyperm 1 2 {} | {}", join_nums(&ws), join_nums(&ws2)), "true");
+    // repeated in-process compilation: every run builds its hash maps with fresh random keys
+    let first = compile_all(&src);
+    let mut same = true;
+    for _ in 0..2 {
+        let again = compile_all(&src);
+        if again != first {
+            same = false;
+        }
+    }
+    match &first {
+        Ok((code, graph)) => {
+            rec.count("compiled");
+            rec.check(same, "c42-inprocess-output-differs", "two compilations of the same program in one process differ");
+            hashes.push(format!("{n} ok {:016x} {:016x}", hv_common::fnv(code.as_bytes()), hv_common::fnv(graph.as_bytes())));
+            if graph.matches("Handoff").count() >= 1 {
+                rec.nontrivial();
+            }
+        }
+        Err(e) => {
+            rec.count("compile-error");
+            rec.check(same, "c42-inprocess-error-differs", "two compilations of the same program give different diagnostics");
+            hashes.push(format!("{n} err {:016x}", hv_common::fnv(e.as_bytes())));
+        }
+    }
 }
